@@ -1,12 +1,5 @@
-import RaftLogModel.Props.C11
+import RaftLogModel.Props.C11Journal
 open RaftLog
-#print axioms c11_name_roundtrip
-#print axioms c11_name_length
-#print axioms c11_name_injective
-#print axioms c11_name_order
-#print axioms c11_segment_is_record_place
-#print axioms c11_rotation
-#print axioms c11_new_chunk_abuts
 #print axioms c11_journal_spec
 #print axioms c11_journal_fresh
 #print axioms c11_journal_call
